@@ -16,6 +16,17 @@ def run(prop, tier, seed, scratch, t0):
     r["out"] = ""
     results, crashes, logged = vlib.run_supervised(binary, "TestCountersign", dict(VERIF_CASES=cases, VERIF_SEED=seed), scratch,
                                                    "countersign", 2 * ncases, "C07")
+    # virtual channels: the hub of a virtual channel and the pairs of funding / settlement proposals
+    rv = vlib.tlc(scratch, "VirtualFund", PCFG, name="VirtualFund", workers=1, timeout=600)
+    if not rv["ok"]:
+        raise vlib.Inconclusive("TLC reports %s in VirtualFund.tla itself" % rv["violated"])
+    vcases = os.path.join(scratch, "vf-cases.txt")
+    open(vcases, "w").write(rv["out"])
+    nv = sum(1 for ln in rv["out"].splitlines() if ln.startswith('"{'))
+    rv["out"] = ""
+    res2, crashes2, logged2 = vlib.run_supervised(binary, "TestVirtualFund", dict(VERIF_CASES=vcases, VERIF_SEED=seed), scratch,
+                                                  "virtualfund", 2 * nv, "C07")
+    results, crashes, logged, ncases = results + res2, crashes + crashes2, logged + logged2, ncases + nv
     viol = list(crashes)
     for d in results:
         viol += d["violations"]
@@ -37,15 +48,25 @@ def run(prop, tier, seed, scratch, t0):
              "amount / index-map entry / index-map length / added / removed, funding that debits only one party / nobody / other "
              "id / other amount / with index map) x native / protobuf serializer; the peer's real client opens the channels, the "
              "crafted update is signed with its real key and injected; observable: a ChannelUpdateAcc of the honest client whose "
-             "signature verifies over the crafted state; verdict of the TLA+ predicate Acceptable. distinct_nontrivial = distinct "
+             "signature verifies over the crafted state; verdict of the TLA+ predicate Acceptable. VirtualFund.tla: the honest client is the HUB of a "
+             "virtual channel between two parties both controlled by the adversary; a case is the PAIR of funding (or, after an "
+             "honest funding, settlement) proposals on the hub's two ledger channels, the honest pair and every single-feature "
+             "mutant (only one proposal arrives; ledger update signed by another key / version +0/+2; the two proposals carry "
+             "different fully signed states of the virtual channel; its state signed by the sender only / badly; sub-allocation "
+             "amount +1; index map swapped / missing / short; virtual flag unset; locked funds in the virtual channel; funding that "
+             "lets the hub pay all / more / nothing; settlement that credits the hub less / swaps the credits / keeps the "
+             "sub-allocation / uses a non-final state), on either ledger channel; observable: the hub's ChannelUpdateAcc for "
+             "either ledger channel. distinct_nontrivial = distinct "
              "(situation, mutant, serializer, verdict, observed) classes",
         exhaustive=True, cases=ncases, crashes=len(crashes), driver_counts=counts,
-        tlc=[dict(config="Countersign.cfg", generated=r["generated"], distinct=r["distinct"], wall_s=round(r["wall"], 1))],
-        checker_cmd="tlc Countersign.tla > cases ; cdrv.test -test.run ^TestCountersign$",
+        tlc=[dict(config="Countersign.cfg", generated=r["generated"], distinct=r["distinct"], wall_s=round(r["wall"], 1)),
+             dict(config="VirtualFund.cfg", generated=rv["generated"], distinct=rv["distinct"], wall_s=round(rv["wall"], 1))],
+        checker_cmd="tlc Countersign.tla > cases ; tlc VirtualFund.tla > vcases ; cdrv.test -test.run '^TestCountersign$|^TestVirtualFund$'",
     )
     assumptions = ["the user's update handler accepts every update it is shown (the property constrains what may reach a signature, "
-                   "not the user's choice)", "sub-channel funding is the automatically accepted update covered; sub-channel "
-                   "settlement and virtual-channel funding/settlement are not crafted yet (DESIGN.md, limits)"]
+                   "not the user's choice)", "automatically accepted updates covered: sub-channel funding and settlement (client as "
+                   "proposee), virtual-channel funding and settlement (client as hub); end points of a virtual channel accept "
+                   "nothing automatically (they propose)"]
     return vlib.finish(prop, tier, seed, t0, cov, mon, assumptions, drift=drift)
 
 
